@@ -89,6 +89,8 @@ func (l *Locale) MarshalJSON() ([]byte, error) {
 // This state can be checked with the `l.Tag().IsRoot()` method.
 func (l *Locale) UnmarshalJSON(data []byte) error {
 	if len(data) == 0 || string(data) == "\"\"" {
+		// an empty locale replaces whatever the receiver held before
+		l.tag = language.Tag{}
 		return nil
 	}
 	err := json.Unmarshal(data, &l.tag)
